@@ -108,6 +108,12 @@ func (s CallableSignalSchema[StepData, InputType]) Call(ctx context.Context, ste
 		return InvalidInputError{err}
 	}
 
-	s.handler(ctx, stepData.(StepData), input.(InputType))
+	// The step data is nil when the step has no initializer and its step data type is an interface (for example
+	// a step created by NewCallableStep); a type assertion on a nil interface value would panic.
+	var typedStepData StepData
+	if stepData != nil {
+		typedStepData = stepData.(StepData)
+	}
+	s.handler(ctx, typedStepData, input.(InputType))
 	return nil
 }
